@@ -252,6 +252,11 @@ class Flow:
             return out
         if isinstance(e, ast.Call):
             return self.eval_call(e, obj, m, env)
+        if isinstance(e, ast.Compare) and all(isinstance(op, (ast.Is, ast.IsNot)) for op in e.ops) and all(isinstance(c, ast.Constant) and c.value is None for c in e.comparators):
+            # `X is None` / `X is not None`: the PRESENCE of X is consulted, not its values - the reads are kept apart
+            # (suffix "?") so that a presence test of a measure does not count as data of that measure
+            left = self.eval(e.left, obj, m, env)
+            return Val(frozenset(), frozenset(r + "?" if self._optional_measure(r) else r for r in left.reads))
         if isinstance(e, ast.Subscript):
             base = self.eval(e.value, obj, m, env)
             idx = self.eval(e.slice, obj, m, env)
@@ -311,6 +316,19 @@ class Flow:
                 for part in (child.lower, child.upper, child.step):
                     acc = acc | self.eval(part, obj, m, env)
         return acc
+
+    def _optional_measure(self, read: str) -> bool:
+        """`Cube.<accessor>` whose declared result is Optional[...]: a measure the response may or may not carry."""
+        if not read.startswith("Cube.") or read.endswith("?"):
+            return False
+        cache = self.__dict__.setdefault("_optional_cache", None)
+        if cache is None:
+            cube = self.repo.cls("cube.py", "Cube")
+            cache = self.__dict__["_optional_cache"] = {
+                n for c in cube.mro for n, mm in c.members.items()
+                if mm.kind in ("lazyproperty", "property") and mm.node.returns is not None and ast.unparse(mm.node.returns).startswith("Optional[")
+            }
+        return read.split(".", 1)[1] in cache
 
     def _elem_objs(self, objs: FrozenSet[Obj]) -> FrozenSet[Obj]:
         out = set()
